@@ -501,3 +501,88 @@ func VerifChoiceStep() {
 	}
 	verifrt.Assert(!(c0 && c1), "C08-running-store-at-most-one-case"+situation)
 }
+
+// v08FinalDevice: the device configuration after all payloads env's target recorded, starting
+// from the running content of st.
+func v08FinalDevice(st *v08State, env *vEnv) *v08Device {
+	dev := &v08Device{pres: map[string]bool{}, tv: map[string]*sdcpb.TypedValue{}}
+	for _, l := range st.sc.leaves {
+		if st.rpres[l.id] {
+			dev.pres[l.id] = true
+			dev.tv[l.id] = l.tv(st.rval[l.id])
+		}
+	}
+	for i := range env.tgt.Updates {
+		for id := range dev.pres {
+			if v08Covered(env.tgt.Deletes[i], id) {
+				dev.pres[id] = false
+			}
+		}
+		for _, u := range env.tgt.Updates[i] {
+			uid := vPathID(u.GetPath())
+			dev.pres[uid] = true
+			dev.tv[uid] = u.GetValue()
+		}
+	}
+	return dev
+}
+
+// VerifChoiceFaultRetry (C07 over the choice scenarios): the same request is run twice from
+// the same arbitrary state in two datastores - once fault-free (the reference), once with the
+// k-th cache call failing once and the request repeated afterwards (after a Confirm when the
+// faulty attempt was applied regardless). Device configuration and both stores must end up
+// equal to the reference.
+func VerifChoiceFaultRetry() {
+	sc := v08PickScenario()
+	pre := v08ArbitraryState(sc)
+	envR, envF := vNewEnv(), vNewEnv()
+	pre.install(envR)
+	pre.install(envF)
+	req := v08ArbitraryRequest(pre, "req.", verifrt.Choice("req.owner", len(sc.owners)))
+	verifrt.Reach("state-built")
+
+	rspR, errR := v08Step(envR, sc, "r1", req)
+	verifrt.Assume(errR == nil && !vHasErrors(rspR))
+	// two references: after the request once (R1), and after it was kept and submitted again (R2;
+	// what a verbatim re-submission does to a choice is C09's business, not judged here)
+	devR1, snapR1 := v08FinalDevice(pre, envR), vSnapshot(envR.model)
+	verifrt.Assume(envR.ds.TransactionConfirm(context.Background(), "r1") == nil)
+	rspR2, errR2 := v08Step(envR, sc, "r2", req)
+	verifrt.Assume(errR2 == nil && !vHasErrors(rspR2))
+	devR2, snapR2 := v08FinalDevice(pre, envR), vSnapshot(envR.model)
+
+	envF.model.FailAt = envF.model.Calls + 1 + verifrt.Choice("fault.cacheCall", verifrt.Param("maxCacheCalls", 12))
+	rsp1, err1 := v08Step(envF, sc, "t1", req)
+	if envF.model.Calls < envF.model.FailAt {
+		return // fewer cache calls than the fault index
+	}
+	envF.model.FailAt = 0
+	verifrt.Reach("fault-hit")
+	kind := "cache"
+	if n := len(envF.model.Log); n > 0 {
+		kind = "cache-" + strings.TrimPrefix(envF.model.Log[n-1], "FAIL ")
+	}
+	devR, snapR := devR1, snapR1
+	if err1 == nil && !vHasErrors(rsp1) {
+		// the fault did not surface: the attempt was applied; the client keeps it and repeats the request
+		verifrt.Reach("fault-swallowed")
+		kind += "-swallowed"
+		verifrt.Assert(envF.ds.TransactionConfirm(context.Background(), "t1") == nil, "C07-choice-confirm-after-swallowed-fault")
+		devR, snapR = devR2, snapR2
+	}
+	rsp2, err2 := v08Step(envF, sc, "t2", req)
+	verifrt.Reach("retried")
+	verifrt.Assert(err2 == nil && !vHasErrors(rsp2), "C07-choice-retry-accepted/after-"+kind+"-failure")
+	if err2 != nil || vHasErrors(rsp2) {
+		return
+	}
+	devF := v08FinalDevice(pre, envF)
+	lbl := "C07-choice-retry-converges/after-" + kind + "-failure"
+	for _, l := range sc.leaves {
+		verifrt.Assert(devR.pres[l.id] == devF.pres[l.id], lbl+"-device-presence")
+		if devR.pres[l.id] && devF.pres[l.id] {
+			verifrt.Assert(vSameTV(devR.tv[l.id], devF.tv[l.id]), lbl+"-device-value")
+		}
+	}
+	vAssertSameBuckets(snapR, vSnapshot(envF.model), lbl+"-stores")
+}
